@@ -35,6 +35,10 @@ class Spec:
     def dev_cost(self, event):
         return 0
 
+    # optional: probe(history) -> (violations, stats), run once per distinct
+    # state when it is expanded (and once more for the last level)
+    probe = None
+
     # exceptions escaping the implementation: None = recorded, state terminal,
     # not a violation; a string = reported as violation with that clause.
     exception_clause = None
@@ -89,6 +93,11 @@ def _expand(args):
     spec = _SPEC
     out = []
     for hidx, hist in enumerate(chunk):
+        if spec.probe is not None:
+            pv, pstats = spec.probe(hist)
+            out.append((hidx, None, None, 0, pv, pstats, None))
+        if max_dev < 0:
+            continue            # probe-only pass
         base = build(spec, hist)
         menu = spec.enabled(base)
         spent = sum(spec.dev_cost(e) for e in hist)
@@ -185,6 +194,12 @@ def bfs(spec, max_depth, max_dev=0, workers=None, time_cap=None,
                     break
                 for (hidx, ev, dg, spent, viol, delta, exc) in outs:
                     hist = job[0][hidx]
+                    if ev is None:          # probe result for hist itself
+                        lvl_stats.update(delta)
+                        for v in viol:
+                            lvl_viol.append((v, hist + tuple(
+                                tuple(e) for e in v.pop('suffix', ()))))
+                        continue
                     lvl_trans += 1
                     lvl_stats.update(delta)
                     h2 = hist + (ev,)
@@ -232,6 +247,16 @@ def bfs(spec, max_depth, max_dev=0, workers=None, time_cap=None,
         else:
             if not frontier:
                 res.exhausted = True
+        if spec.probe is not None and frontier and pool is not None \
+                and not res.caps_hit:
+            jobs = [(c, -1) for c in _chunks(frontier, chunk)]
+            for job, outs in zip(jobs, pool.imap(_expand, jobs)):
+                for (hidx, ev, dg, spent, viol, delta, exc) in outs:
+                    res.stats.update(delta)
+                    for v in viol:
+                        _note(res, v, job[0][hidx] + tuple(
+                            tuple(e) for e in v.pop('suffix', ())))
+            res.final_probe_pass = True
     finally:
         if pool:
             pool.close()
